@@ -679,6 +679,7 @@ fn extract<'tcx>(tcx: TyCtxt<'tcx>) -> J {
     let mut roots_pub: Vec<DefId> = vec![];
     let mut roots_other: Vec<DefId> = vec![];
     let mut consts: Vec<(String, J)> = vec![];
+    let mut const_bodies: Vec<(String, J)> = vec![];
     for ldid in tcx.hir_body_owners() {
         let did = ldid.to_def_id();
         let kind = tcx.def_kind(did);
@@ -720,6 +721,15 @@ fn extract<'tcx>(tcx: TyCtxt<'tcx>) -> J {
                 fns.insert(path(tcx, did), J::obj(o));
             }
             DefKind::Const { .. } | DefKind::AssocConst { .. } => {
+                {
+                    // table constants (`const VALUES: [StatsType; N] = [..]`): the initialiser's MIR, so that rules can read
+                    // which elements the table lists
+                    let t = tcx.type_of(did).instantiate_identity().skip_norm_wip();
+                    if matches!(t.kind(), ty::Array(..)) {
+                        let body = tcx.mir_for_ctfe(did);
+                        const_bodies.push((path(tcx, did), body_json(tcx, did, body)));
+                    }
+                }
                 if let Ok(v) = tcx.const_eval_poly(did) {
                     let t = tcx.type_of(did).instantiate_identity().skip_norm_wip();
                     if let Some(s) = v.try_to_scalar_int() {
@@ -779,6 +789,7 @@ fn extract<'tcx>(tcx: TyCtxt<'tcx>) -> J {
         ("crate", J::s(tcx.crate_name(LOCAL_CRATE).to_string())),
         ("fns", J::Obj(fns.into_iter().collect())),
         ("consts", J::Obj(consts)),
+        ("const_bodies", J::Obj(const_bodies)),
         ("adts", J::Obj(adts)),
         ("graph", graph),
     ])
